@@ -60,8 +60,8 @@ def directed_d9(mon):
 
 def ad_run(mon, rng):
     """VOGP_AD on a user-defined continuous problem (real GP): the same reference transition on tree nodes"""
-    case, order = runs.make_ad_case(rng)
-    case["max_rounds"] = 60
+    case, order = runs.make_ad_case(rng, eps=float(rng.choice([0.1, 0.15, 0.3])), depth_max=int(rng.choice([2, 3])), d=2)
+    case["max_rounds"] = 110
     tr = runs.run_ad_case(case, order, mon)
     mon.count("runs")
     mon.count("vogp_ad_runs")
